@@ -161,6 +161,13 @@ structure ErrorFn where
   errorLineToStderr : Bool
 deriving DecidableEq, Repr
 
+/-- where `parse_args` drops a pending `--print_config` request (`self.__dict__.pop("print_config", None)`) -/
+inductive Cleanup
+  | inFinally        -- in the `finally` of the method's try: runs on every exit of the try block
+  | inHandlerOnly    -- only inside `except` handlers: skipped when the block is left by an exception no handler catches
+  | absent
+deriving DecidableEq, Repr
+
 structure Tables where
   /-- live `issubclass`: all classes of the universe that `c` is a subclass of (itself included) -/
   ancestors : Exc → List Exc
@@ -177,6 +184,8 @@ structure Tables where
   helpExitOnError : Bool
   /-- the attributes `_ActionSubCommands.add_subcommand` copies from the parent parser to the sub-command parser -/
   subInherited : List String
+  /-- where parse_args drops a pending print_config request -/
+  printConfigCleanup : Cleanup
 
 def sub (T : Tables) (c d : Exc) : Bool := (T.ancestors c).contains d
 
@@ -716,6 +725,36 @@ def stageRaises (T : Tables) (mode : Mode) (st : Stage) : List Exc :=
       (fun acc s => match s with
         | .exc c _ => if acc.contains c then acc else acc ++ [c]
         | _ => acc) acc) []
+
+/-! ### the pending `--print_config` request across two calls on one parser -/
+
+/-- how the `try` block of parse_args is left -/
+inductive TryExit
+  | returns            -- normally
+  | caught             -- by an exception the method's own handler catches (TypeError, KeyError → error())
+  | passes             -- by something the handler does not catch: the ArgumentError / SystemExit of a direct `self.error(..)`
+                       -- (unrecognized arguments, parse_known_args' conversion of argparse errors), exit(0)
+deriving DecidableEq, Repr
+
+def TryExit.all : List TryExit := [.returns, .caught, .passes]
+
+/-- how a signal in flight inside the try body of parse_args leaves the block -/
+def tryExitOf (T : Tables) (mode : Mode) : Sig → TryExit
+  | .cont => .returns
+  | .exit _ _ => if caught T mode (T.handler (.outer .parseArgs)) .SystemExit then .caught else .passes
+  | .exc c _ => if caught T mode (T.handler (.outer .parseArgs)) c then .caught else .passes
+
+def cleanupRuns (T : Tables) : TryExit → Bool
+  | .caught => T.printConfigCleanup = .inFinally || T.printConfigCleanup = .inHandlerOnly
+  | _ => T.printConfigCleanup = .inFinally
+
+/-- is a request still stored on the parser after a parse_args call during which `--print_config` was
+consumed (`requested`) and whose try block was left by `e`?  (`print_config_if_requested` removes it itself
+before it prints; that path leaves by exit(0) with nothing pending.) -/
+def pendingAfter (T : Tables) (requested : Bool) (e : TryExit) : Bool := requested && !cleanupRuns T e
+
+/-- the next, valid, parse_args on the same parser, whose argv has no --print_config -/
+def nextValid (T : Tables) (pending : Bool) : Outcome := if pending then .exit T.plainExit else .ok
 
 /-! ### a small pipeline model -/
 
